@@ -6,6 +6,8 @@ import (
 	"encoding/hex"
 	"fmt"
 	"io"
+	"os"
+	"path/filepath"
 	"reflect"
 	"strings"
 	"sync"
@@ -45,8 +47,46 @@ func pgpEntities() []*openpgp.Entity {
 			}
 			pgpPool = append(pgpPool, e)
 		}
+		plantAmbientKeyrings(pgpPool)
 	})
 	return pgpPool
+}
+
+// plantAmbientKeyrings: in the ambient pass every place a program might look for "the keyrings of
+// this machine" - the directories named in VERIF_AMBIENT_KEYDIRS (bind-mounted over
+// /usr/share/keyrings and /etc/apt/trusted.gpg.d in a private mount namespace, and ~/.gnupg) -
+// holds every key of the pool under every usual file name.  The properties judge a signature
+// against the keyring the caller passed, so none of this may change a verdict.
+func plantAmbientKeyrings(pool []*openpgp.Entity) {
+	dirs := os.Getenv("VERIF_AMBIENT_KEYDIRS")
+	if dirs == "" {
+		return
+	}
+	bin := serializePublic(pool...)
+	var asc bytes.Buffer
+	w, err := armor.Encode(&asc, openpgp.PublicKeyType, nil)
+	if err != nil {
+		panic("HARNESS: " + err.Error())
+	}
+	w.Write(bin)
+	w.Close()
+	names := []string{"debian-keyring.gpg", "debian-maintainers.gpg", "debian-nonupload.gpg", "debian-archive-keyring.gpg",
+		"debian-keyring.pgp", "debian-maintainers.pgp", "debian-nonupload.pgp", "debian-role-keys.gpg", "debian-emeritus-keyring.gpg",
+		"ubuntu-archive-keyring.gpg", "trusted.gpg", "trustedkeys.gpg", "pubring.gpg", "keyring.gpg", "debsig.gpg"}
+	names = append(names, strings.Fields(os.Getenv("VERIF_AMBIENT_KEYNAMES"))...)
+	for _, d := range filepath.SplitList(dirs) {
+		for _, n := range names {
+			content := bin
+			if strings.HasSuffix(n, ".asc") {
+				content = asc.Bytes()
+			} else {
+				_ = os.WriteFile(filepath.Join(d, strings.TrimSuffix(n, filepath.Ext(n))+".asc"), asc.Bytes(), 0o644)
+			}
+			if err := os.WriteFile(filepath.Join(d, n), content, 0o644); err != nil {
+				panic("HARNESS: cannot plant " + n + ": " + err.Error())
+			}
+		}
+	}
 }
 
 func serializePublic(es ...*openpgp.Entity) []byte {
@@ -86,6 +126,51 @@ type SigCase struct {
 	// Sibling, when set: another signed package (same layout and codecs, different payload) that is
 	// loaded before and after this one and stays open: what the handles deliver must not mix
 	Sibling []byte `json:"sibling,omitempty"`
+	// Genuine, when set: Raw (altered, same member sizes) is loaded from a FILE whose handle is
+	// closed before the check, while the untampered package Genuine is what the path given to the
+	// loader leads to at that moment.  The check is about the members that were loaded.
+	Genuine []byte `json:"genuine,omitempty"`
+}
+
+// checkClosedHandle: two histories in which the bytes loaded and the bytes at Deb.Path differ.
+func checkClosedHandle(c SigCase, keyring openpgp.EntityList) error {
+	dir, err := os.MkdirTemp(workDir(), "c16-")
+	if err != nil {
+		return errf("HARNESS: %v", err)
+	}
+	defer os.RemoveAll(dir)
+	good, bad := filepath.Join(dir, "pkg_1_all.deb"), filepath.Join(dir, "altered.deb")
+	if err := os.WriteFile(good, c.Genuine, 0o644); err != nil {
+		return errf("HARNESS: %v", err)
+	}
+	if err := os.WriteFile(bad, c.Raw, 0o644); err != nil {
+		return errf("HARNESS: %v", err)
+	}
+	// (1) Load from an open file, told the name of the genuine copy; the file is closed before the check
+	fd, err := os.Open(bad)
+	if err != nil {
+		return errf("HARNESS: %v", err)
+	}
+	d, lerr := deb.Load(fd, good)
+	fd.Close()
+	if lerr == nil {
+		if signer, verr := d.CheckDebsig(keyring, c.Role); verr == nil {
+			return errf("fault %q: the altered package was loaded from a file (closed since) under the path of the genuine one, and CheckDebsig succeeds (signer %s): it did not judge the members that were loaded", c.Fault, fingerprint(signer))
+		}
+		d.Close()
+	}
+	// (2) LoadFile, close, the genuine package is moved to that name, check
+	d2, closer, lerr := deb.LoadFile(bad)
+	if lerr == nil {
+		closer()
+		if err := os.Rename(good, bad); err != nil {
+			return errf("HARNESS: %v", err)
+		}
+		if signer, verr := d2.CheckDebsig(keyring, c.Role); verr == nil {
+			return errf("fault %q: the altered package was loaded with LoadFile and closed, the genuine one then moved to its name, and CheckDebsig succeeds (signer %s): it did not judge the members that were loaded", c.Fault, fingerprint(signer))
+		}
+	}
+	return nil
 }
 
 func checkSigCase(c SigCase, r *Recorder) error {
@@ -97,6 +182,9 @@ func checkSigCase(c SigCase, r *Recorder) error {
 	keyring, err := openpgp.ReadKeyRing(bytes.NewReader(c.Keyring))
 	if err != nil && len(c.Keyring) > 0 {
 		return errf("HARNESS: keyring unreadable: %v", err)
+	}
+	if c.Genuine != nil {
+		return checkClosedHandle(c, keyring)
 	}
 	reps := c.Reps
 	if reps < 1 {
@@ -217,6 +305,33 @@ func checkSigCase(c SigCase, r *Recorder) error {
 	return nil
 }
 
+// pgpHeaderLen: the length of the packet header the signature starts with (0 = not understood).
+func pgpHeaderLen(p []byte) int {
+	if len(p) < 3 || p[0]&0x80 == 0 {
+		return 0
+	}
+	if p[0]&0x40 != 0 { // new format
+		switch l := p[1]; {
+		case l < 192:
+			return 2
+		case l < 224:
+			return 3
+		case l == 255:
+			return 6
+		}
+		return 0
+	}
+	switch p[0] & 3 {
+	case 0:
+		return 2
+	case 1:
+		return 3
+	case 2:
+		return 5
+	}
+	return 0
+}
+
 func faultClass(f string) string {
 	for i := 0; i < len(f); i++ {
 		if f[i] == '@' || f[i] == ':' {
@@ -269,7 +384,7 @@ func genSignedBase(t *rapid.T) SignedBase {
 
 var specC16 = Register(&Spec[SigCase]{
 	Prop: "C16", Name: "debsig",
-	Rule:  "fault enumeration over generated debsig-signed packages (C14 models with stored/gzip/zstd members, role in {origin, maint, archive}, RSA signer from a per-process pool, detached binary signature over debian-binary|control|data in '_gpg<role>'): the untampered package with the signer in the keyring (accept - and after the check the handle still delivers the signed payload, and a repeated check agrees; the same with another signed package of the same layout loaded before and after it and left open); EVERY single-byte XOR 0x01 inside the three signed members (reject); a decoy control.*/data.* member with a different extension (a stored tar carrying 'Package: evil', or a copy) and a same-name duplicate with changed content inserted at EVERY member position, each loaded 64 times (reject); a decoy named the GNU way - a '//' name table plus a member '/0' - at every position (must fail or expose the signed content); a role that is not present, an unrelated keyring, an empty keyring (reject); a second CheckDebsig on the same handle with an unrelated or empty keyring after a successful first one (the second must fail); EVERY single-byte XOR inside the signature member (must fail or still verify the unmodified content); the signature member followed by junk, a NUL byte, a truncated or a damaged second signature (reject); the signature member replaced by its ASCII-armored form, alone (either outcome), with a foreign/empty keyring and with flipped bytes in each signed member (reject). Oracle: reject => Load or CheckDebsig fails on every repetition; always: if both succeed, the control data exposed equals the signed package's model and the signer is the signing entity. Non-trivial: every faulted case; distinct by (bytes, role, keyring).",
+	Rule:  "fault enumeration over generated debsig-signed packages (C14 models with stored/gzip/zstd members, role in {origin, maint, archive}, RSA signer from a per-process pool, detached binary signature over debian-binary|control|data in '_gpg<role>'): the untampered package with the signer in the keyring (accept - and after the check the handle still delivers the signed payload, and a repeated check agrees; the same with another signed package of the same layout loaded before and after it and left open); EVERY single-byte XOR 0x01 inside the three signed members (reject); a decoy control.*/data.* member with a different extension (a stored tar carrying 'Package: evil', or a copy) and a same-name duplicate with changed content inserted at EVERY member position, each loaded 64 times (reject); a decoy named the GNU way - a '//' name table plus a member '/0' - at every position (must fail or expose the signed content); a role that is not present, an unrelated keyring, an empty keyring (reject); a second CheckDebsig on the same handle with an unrelated or empty keyring after a successful first one (the second must fail); EVERY single-byte XOR inside the signature member (must fail or still verify the unmodified content); per signed member one altered byte in a package loaded from a FILE that is closed before the check while its path (or the path told to Load) leads to the genuine package (reject); the signature member followed by junk, a NUL byte, a truncated or a damaged second signature, and a second copy whose version, public-key-algorithm or hash-algorithm byte lost a bit (five masks) in front of or behind the good one (reject); the signature member replaced by its ASCII-armored form, alone (either outcome), with a foreign/empty keyring and with flipped bytes in each signed member (reject). Oracle: reject => Load or CheckDebsig fails on every repetition; always: if both succeed, the control data exposed equals the signed package's model and the signer is the signing entity. Non-trivial: every faulted case; distinct by (bytes, role, keyring).",
 	Check: checkSigCase,
 })
 
@@ -365,6 +480,20 @@ func enumerateSigFaults(b SignedBase, yield func(SigCase) bool) bool {
 			}
 		}
 	}
+	// the check is about the members that were loaded, not about what a path leads to later: one
+	// altered byte per signed member, loaded from a file that is closed (and replaced) before the check
+	for i := 0; i < len(members)-1; i++ {
+		if len(members[i].Data) == 0 {
+			continue
+		}
+		mut := append([]byte{}, raw...)
+		mut[offs[i]+60+len(members[i].Data)/2] ^= 0x01
+		c := mk(mut, "reject", fmt.Sprintf("closed-handle-flip:%s", members[i].Name), 1)
+		c.Genuine = raw
+		if !yield(c) {
+			return false
+		}
+	}
 	// the signature member is "a valid detached signature" - not one followed by something else
 	{
 		sig := members[len(members)-1].Data
@@ -375,6 +504,27 @@ func enumerateSigFaults(b SignedBase, yield func(SigCase) bool) bool {
 			sm[len(sm)-1].Data = append(append([]byte{}, sig...), tail...)
 			if !yield(mk(renderAr(sm), "reject", "sig+"+name, 2)) {
 				return false
+			}
+		}
+	}
+	// ... nor one next to a signature whose header lost a bit: the version, public-key-algorithm
+	// and hash-algorithm bytes of a second copy (a reader that cannot make sense of a packet has
+	// not verified it), in front of and behind the good one
+	{
+		sig := members[len(members)-1].Data
+		if hdr := pgpHeaderLen(sig); hdr > 0 && hdr+4 < len(sig) {
+			for _, off := range []int{0, 2, 3} {
+				for _, mask := range []byte{0x01, 0x02, 0x10, 0x40, 0x80} {
+					bad := append([]byte{}, sig...)
+					bad[hdr+off] ^= mask
+					for order, two := range [][]byte{append(append([]byte{}, sig...), bad...), append(append([]byte{}, bad...), sig...)} {
+						sm := append([]ArMember{}, members...)
+						sm[len(sm)-1].Data = two
+						if !yield(mk(renderAr(sm), "reject", fmt.Sprintf("sig+header-damaged-second:%d^%02x/%d", off, mask, order), 1)) {
+							return false
+						}
+					}
+				}
 			}
 		}
 	}
